@@ -31,13 +31,6 @@ Theorem ckfile_truncation :
 Proof. exact truncation_lemma. Qed.
 Print Assumptions ckfile_truncation.
 
-(* [REFUTED] the unrestricted refinement claim is false for the code as written, finding F19: after writing 3 bytes,
-   a zero-length WriteAt at offset 100 pads the checksummed file to size 100 while an ordinary file keeps size 3 *)
-Theorem ckfile_refines_plain_refuted :
-  exists ops, no_tamper ops /\ ~ refines_plain ops.
-Proof. exact refines_plain_refuted_lemma. Qed.
-Print Assumptions ckfile_refines_plain_refuted.
-
 (* [FULL] corruption detection. r is a sound raw file, Inv_raw says every block is non-empty data followed by its
    little-endian CRC-32C, block k exists, and r' differs from r by ONE burst of at most 32 bits anywhere in the stored
    bytes of block k, data or checksum or straddling both, all other blocks untouched. Then every ReadAt that touches
